@@ -2,7 +2,7 @@ From Coq Require Import Extraction ExtrOcamlBasic.
 From Common Require Import Conv Outcome.
 From Gen Require Import Consts.
 From C03 Require Import Model.
-From C18B Require Import Model Concrete.
+From C18B Require Import Model Concrete Bulk.
 Extraction "c18b_model.ml" conv_anchor M_sfnt_read_at M_sfnt_read M_sfnt_read_go faulty fails_at fails_ge no_fault
   sparse_at sparse_file plain_at to_c03 M_read_dir_r dir_fp replay covered first_touch touches
-  model_sites required_tables with_models.
+  model_sites required_tables with_models M_bulk_read rb_recorded parser_bufferSize.
